@@ -68,7 +68,11 @@ func (c *Ctx) runSP(k spCase) string {
 	})
 	spec := specParse(k.cfg, k.now, k.ids, k.url, true, k.r)
 	toks := joinToks(k.cfg.toks(), []string{encInt(k.now)}, encStrList(k.ids), []string{encStr(k.url), "r", sigState(k.r.Sig, k.cfg)}, k.r.toks(k.cfg))
-	return c.emit("spstruct", toks, impl, oracleCmp(spec, impl))
+	orc := oracleCmp(spec, impl)
+	if po := panicOracle(impl, "ParseXMLResponse"); po != "" {
+		orc = po
+	}
+	return c.emit("spstruct", toks, impl, orc)
 }
 
 // position of an instant relative to its acceptance boundary b; dir=+1 means "larger is inside"
